@@ -810,7 +810,7 @@ def gen_op(rng, U, friendly):
         ['add', 'sub', 'iadd', 'isub', 'addz', 'mul', 'div', 'neg', 'imul', 'idiv', 'copy', 'back', 'setbasis',
          'setx', 'mkset', 'item', 'setsx', 'reduce', 'apply', 'applys', 'subcancel'],
         [14, 12, 8, 8, 5, 7, 6, 4, 4, 4, 6, 7, 4,
-         4, 5, 6, 3, 5, 10, 4, 5])[0]
+         4, 6, 10, 5, 8, 10, 4, 5])[0]
     a = rng.choice(rx)
     oa = U.objs[a]
     def partner():
